@@ -12,25 +12,25 @@ CHECKS = {
          "Every archive produced from the C01 generator is parsed by a reader written from the specification (header, section bounds/disjointness, 16 KiB root budget, canonical directories, ordering, counters recomputed, clustered flag vs layout, binary-search lookup of every model id and of non-members). A sample is parsed again by an unrelated Python reader. Sampling search.",
          "Trusted: harness/src/spec/reader.rs and tools/pmtiles_ref.py as readings of the specification; flate2/brotli/zstd as decompressors.", "DESIGN.md §4 C02"),
  "C03": ("exploration", "proptest layouts through an independent spec-level writer; expected mapping from the layout description; fixtures",
-         "Foreign archives (24 section orders, gaps, directory depth 1-3, shuffled/padded leaves, runs, shared/non-monotonic/undeduplicated offsets, non-eliding spelling, empty metadata, 4 codecs with foreign parameters) are opened through from_bytes / from_reader / from_async_reader and compared with what the layout addresses; util::read_directories (sync+async) and Directory::find_entry_for_tile_id are compared with reference answers; the three Go-writer fixtures are compared with the independent reader. Sampling search with class floors.",
+         "Foreign archives (24 section orders, gaps, directory depth 1-3, shuffled/padded leaves, runs, shared/non-monotonic/undeduplicated offsets, non-eliding spelling, directories mixing tile entries and leaf pointers, the last tile id of the domain, counters left at 0, empty metadata, 4 codecs with foreign parameters) are opened through from_bytes / from_reader / from_async_reader and compared with what the layout addresses; util::read_directories (sync+async) and Directory::find_entry_for_tile_id are compared with reference answers; the three Go-writer fixtures are compared with the independent reader. Sampling search with class floors.",
          "Trusted: harness/src/spec/{writer,reader}.rs, cross-checked against each other on every case.", "DESIGN.md §4 C03"),
  "C04": ("exploration", "bounded-exhaustive operation sequences + proptest histories against a map model (model-based testing)",
          "All sequences of 5 (quick) / 6 (thorough) operations over a 14-symbol alphabet of adjacent ids, colliding contents, removes and sync/async reopen, from an empty and from a foreign archive, with a full comparison against the model after every step; plus random histories up to 300 ops over larger alphabets and initial states. Exhaustive within the small scope, sampled beyond.",
          "Trusted: BTreeMap model and interpreter (harness/src/model/history.rs). The hash-collision finding has its own probe.", "DESIGN.md §4 C04"),
  "C05": ("exploration", "bounded-exhaustive enumeration + proptest vs independent encoder/decoder (differential, round trip)",
-         "Every valid list of <=2 entries over boundary value sets (<=3 over reduced/full sets) and seeded random lists up to 10^4/10^5 entries are serialised by the library and compared byte-for-byte with an independent spec-level encoder, parsed from the independent encoder's output (canonical and non-eliding spellings) and round-tripped in all sync/async pairings under all four codecs. Search, not proof: covers the boundary lattice completely and the rest by sampling.",
+         "Every valid list of <=2 entries over boundary value sets (<=3 over reduced/full sets) and seeded random lists up to 10^4/10^5 entries are serialised by the library and compared byte-for-byte with an independent spec-level encoder, parsed from the independent encoder's output (canonical and non-eliding spellings) and round-tripped in all sync/async pairings under all four codecs; every third list follows a refused serialise / parse on the same thread. Search, not proof: covers the boundary lattice completely and the rest by sampling.",
          "Trusted: harness/src/spec/{varint,directory}.rs (written from the specification), flate2/brotli/zstd as decompressors.", "DESIGN.md §4 C05"),
  "C07": ("exploration", "bounded-exhaustive enumeration (all ids of zooms 0..12 / 0..16) + proptest vs independent Hilbert implementation",
-         "Both conversions are compared with an independent rotate-and-flip implementation for every tile id of zooms 0-12 (quick) / 0-16 (thorough) together with block contiguity, edge adjacency and the aligned child block; boundary, bit-pattern and uniform points at every zoom 0-31, ids beyond the domain, and generated out-of-grid coordinate lookups against archives holding every tile the coordinates could alias to. Exhaustive below the zoom bound, sampled above it.",
+         "Both conversions are compared with an independent rotate-and-flip implementation for every tile id of zooms 0-12 (quick) / 0-16 (thorough) together with block contiguity, edge adjacency and the aligned child block; boundary, bit-pattern and uniform points at every zoom 0-31 (each asked again at other zooms back to back), ids beyond the domain, and generated out-of-grid coordinate lookups against archives holding every tile the coordinates could alias to. Exhaustive below the zoom bound, sampled above it.",
          "Trusted: harness/src/spec/hilbert.rs (the specification's algorithm).", "DESIGN.md §4 C07"),
  "C10": ("exploration", "proptest duplication patterns and histories; independent greedy RLE + sum-of-distinct oracle; hook-observed retention invariant after every step",
-         "Engineered duplication patterns on top of empty and undeduplicated foreign archives are written and parsed by the independent reader: tile-data length = sum of distinct content lengths, equal content <=> equal (offset,length), entry list = greedy run-length encoding of the model (hence not mergeable further). Edit histories check after every step that the builder holds exactly one copy per live in-memory content (verif hook). Sampling search with class floors.",
+         "Engineered duplication patterns on top of empty and undeduplicated foreign archives are written and parsed by the independent reader: tile-data length = sum of distinct content lengths, equal content <=> equal (offset,length), entry list = greedy run-length encoding of the model (hence not mergeable further); runs beyond 2^16 ids and archives with more than 2^16 distinct contents are part of every tier. Edit histories check after every step that the builder holds exactly one copy per live in-memory content (verif hook). Sampling search with class floors.",
          "Trusted: independent RLE in props/c10.rs, spec reader; hook is a read-only accessor.", "DESIGN.md §4 C10"),
  "C11": ("exploration", "proptest archives x steered ranges; metamorphic oracle: full open filtered by an independent contains()",
-         "Foreign and library-written archives (root-only, with leaves, depth <= 3) are opened partially through all five range-taking APIs with ranges over all nine bound-kind combinations, endpoints steered onto 0, leaf first ids, run boundaries and u64::MAX; the result must equal the full opening restricted to the range, with identical bytes, and never fail or panic when the full open succeeds. Sampling search; every case carries all nine bound kinds.",
+         "Foreign and library-written archives (root-only, with leaves, depth <= 3) are opened partially through all five range-taking APIs with ranges over all nine bound-kind combinations, endpoints steered onto, next to, a few ids beyond and half-way between 0, leaf first ids, run boundaries and u64::MAX, incl. pin-point ranges of 1-7 ids; the result must equal the full opening restricted to the range, with identical bytes, and never fail or panic when the full open succeeds. Sampling search; every case carries all nine bound kinds.",
          "Trusted: independent contains() and the full open as reference (itself checked by C03).", "DESIGN.md §4 C11"),
  "C16": ("exploration", "proptest pairs of histories to the same state, repeated writes, rewrite, separate OS processes; byte-equality oracle",
-         "For generated logical archives a second history (other permutation, detours, save+reopen in between) must serialise to the same bytes as the straight one, for all four codecs and both writers; the same history twice, a rewrite of a just-read archive, large archives with leaf spill, and two freshly spawned processes must agree too. Sampling search.",
+         "For generated logical archives a second history (other permutation, detours, save+reopen in between) must serialise to the same bytes as the straight one, for all four codecs and both writers; the same history twice, a rewrite of a just-read archive, a foreign archive opened and saved against the same content built in memory, large archives with leaf spill, and two freshly spawned processes must agree too. Sampling search.",
          "Trusted: byte comparison only.", "DESIGN.md §4 C16"),
  "C19": ("exploration", "proptest placement of the offending element (history position, entry index, JSON kind, codec, API); Err-and-unchanged oracle with controls",
          "Empty-content adds at generated points of histories on in-memory and reader-backed archives (must be Err; archive then equals the model and writes the same bytes as without them); a zero-length entry at any index of directories up to 10^3 entries x 4 codecs x sync/async serialiser and parser; every non-object JSON kind (incl. long multi-byte strings) as metadata x open API x full / empty / tiny filter ranges; unknown internal compression on open (same APIs and ranges) and on every writer. Sampling search with positive controls so a reject-everything implementation fails.",
@@ -57,13 +57,13 @@ CHECKS.update({
          "For 13 scenarios x 4 compressions x sync/async x sampled archives the fault-free run is recorded and every k < N is executed with operations k.. failing; the call must return Err (never Ok, never panic), with the single carve-out of zero-byte EOF probes. Exhaustive in k for every sampled instance (instances above an operation cap only in the thorough tier). Two further passes: a fixed-size sink of every capacity below the needed size, and generated archives whose source stream ends inside a generated tile (lookups of incomplete tiles and re-writing must be Err, complete tiles exact).",
          "Trusted: fail-stop fault model on the in-memory stream. One open known finding (Directory::to_writer sync + codec after flush).", "DESIGN.md §4 C15"),
  "C17": ("fault_enumeration", "exhaustive crash-point enumeration over the recorded write log, inputs sampled with proptest strategies",
-         "For sampled archives (with/without spill, 4 codecs, sync/async) every prefix k in [0,N] of the recorded seek/write/flush/close operations is replayed into a fresh zero-filling stream; the image must be rejected by from_bytes unless it equals the complete archive. Exhaustive in k per instance.",
+         "For sampled archives (with/without spill, 4 codecs, sync/async) (built in memory or re-saved from an opened archive; some with a zero-tailed last tile) every prefix k in [0,N] of the recorded seek/write/flush/close operations is replayed into a fresh zero-filling stream; the image must be rejected by from_bytes unless it equals the complete archive. Exhaustive in k per instance.",
          "Trusted: each write call atomic; zero fill for unwritten ranges.", "DESIGN.md §4 C17"),
  "C18": ("exploration", "proptest start positions x prefill modes x archives; prefix-untouched + independent reader + model round trip + end position oracle",
          "Writing at stream position P in {0,1,10,127,128,4096,16384,random} into prefilled / longer-prefilled / empty-but-positioned streams with sync and async writers: bytes before P unchanged, stream[P..] passes the full C02 conformance check with offsets relative to P and opens to the model, final position = P + archive end.",
          "Trusted: C02's independent reader.", "DESIGN.md §4 C18"),
  "C20": ("exploration", "proptest foreign layouts on a recording stream; byte-range containment oracle",
-         "Every byte range delivered while opening (full/partial, sync/async, with short reads) must lie inside header/metadata/root/leaf sections and never touch tile data, which the layouts place before or between the directory sections with gaps; each lookup must read exactly the tile's range.",
+         "Every byte range delivered while opening (full/partial, sync/async, with short reads) must lie inside header/metadata/root/leaf sections and never touch tile data, which the layouts place before or between the directory sections with gaps; each lookup - random ids, an ascending sweep over consecutive ids, a lookup of the following tile and a retry after a lookup aborted by a transient fault - must read exactly the tile's range and return its bytes.",
          "Trusted: recording stream; layout description for section bounds.", "DESIGN.md §4 C20"),
 })
 
